@@ -63,7 +63,7 @@ def check(repo, tier="quick"):
         "is_complete), and exact comparison of the implemented language (extracted gadgets + extracted edge semantics) "
         "with a reference engine on a pattern corpus."
     )
-    res.rule("C18.f", "bug patterns with zero expected instances in this property's modules: swapped same-named arguments, lower-bound guard followed by a decrement of the guarded value, presence of a dictionary entry decided by truthiness")
+    res.rule("C18.f", "bug patterns with zero expected instances in this property's modules: swapped same-named arguments, lower-bound guard followed by a decrement of the guarded value, presence of a dictionary entry decided by truthiness; the pattern module keeps no state between calls (no cache of parsed patterns or automata)")
     res.rule("C18.a", "each from_ast gadget: (i) black-box language = constructor language, (ii) edges touch sub-automata only at start(in)/final(out), (iii) returned start has no incoming / final no outgoing added edge")
     res.rule("C18.b", "NFANode.add_transition inserts exactly one directed edge self -> dest")
     res.rule("C18.c", "simulation shape: follow = closure then symbol step; match_symbol unions symbol and wildcard steps over all current states and leaves the state untouched on failure; is_complete tests the final node in the closure or an end-of-sequence edge")
@@ -154,6 +154,9 @@ def check(repo, tier="quick"):
     from .. import lints as _lints
 
     _lints.rule(repo, res, "C18.f", ['symbol_re'])
+    from .. import globals_state as _gs
+
+    _gs.rule(repo, res, "C18.f", ['symbol_re'], what="the automaton built for one pattern (a later pattern could be answered from an earlier, different one)")
     res.floor("C18.f", 2)
     res.floor("C18.a", 15)
     res.floor("C18.b", 4)
@@ -301,11 +304,24 @@ def simulation_shape(repo, res, m):
     res.check(not bad, "C18.c", "match_symbol:no-advance-on-failure", "%s:Matcher.match_symbol" % m.rel, "; ".join(bad), by="cur_states stored exactly on the paths returning True")
     # is_complete
     ic = _method(matcher, "is_complete")
-    t = norm(ic)
-    uses_final = "self.nfa.final" in t and "equivalent_nodes" in t
-    uses_eos = any(isinstance(c, ast.Call) and isinstance(c.func, ast.Attribute) and c.func.attr == "follow" and c.args and dotted(c.args[0]) == "END_OF_SEQUENCE" for c in ast.walk(ic))
-    over_states = any(isinstance(l, ast.For) and norm(l.iter) == "self.cur_states" for l in ast.walk(ic)) or "self.cur_states" in t
-    res.check(uses_final and uses_eos and over_states, "C18.c", "is_complete:final-in-closure", "%s:Matcher.is_complete" % m.rel, "is_complete() does not test (final in closure) or (end-of-sequence edge) over the current states", by="final in equivalent_nodes() or follow(END_OF_SEQUENCE)")
+    from ..core import pmatch as _pm
+
+    body = [x for x in ic.body if not (isinstance(x, ast.Expr) and isinstance(x.value, ast.Constant))]
+    shape = len(body) == 2 and isinstance(body[0], ast.For) and norm(body[0].iter) == "self.cur_states" and isinstance(body[0].target, ast.Name) and not body[0].orelse and isinstance(body[1], ast.Return) and isinstance(body[1].value, ast.Constant) and body[1].value.value is False
+    tests = []
+    if shape:
+        v = body[0].target.id
+        for st in body[0].body:
+            if isinstance(st, ast.If) and not st.orelse and len(st.body) == 1 and isinstance(st.body[0], ast.Return) and isinstance(st.body[0].value, ast.Constant) and st.body[0].value.value is True:
+                tests.extend(st.test.values if isinstance(st.test, ast.BoolOp) and isinstance(st.test.op, ast.Or) else [st.test])
+            else:
+                shape = False
+        final_forms = ["self.nfa.final in list(%s.equivalent_nodes())", "self.nfa.final in %s.equivalent_nodes()", "self.nfa.final in set(%s.equivalent_nodes())"]
+        eos_forms = ["list(%s.follow(END_OF_SEQUENCE))", "set(%s.follow(END_OF_SEQUENCE))", "any(True for ANY_ in %s.follow(END_OF_SEQUENCE))", "len(list(%s.follow(END_OF_SEQUENCE))) > 0", "len(list(%s.follow(END_OF_SEQUENCE))) != 0"]
+        has_final = sum(1 for t in tests if any(_pm(f % v, t) is not None for f in final_forms))
+        has_eos = sum(1 for t in tests if any(_pm(f % v, t) is not None for f in eos_forms))
+        shape = shape and len(tests) == 2 and has_final == 1 and has_eos == 1
+    res.check(shape, "C18.c", "is_complete:final-in-closure", "%s:Matcher.is_complete" % m.rel, "is_complete() must return True exactly when, for some current state, the final node is in its epsilon closure or it has *any* end-of-sequence edge (the language comparison of C18.d/e assumes exactly this acceptance condition), and False otherwise (tests found: %s)" % [short(t, 60) for t in tests], by="for each current state: final in equivalent_nodes() or follow(END_OF_SEQUENCE) non-empty; else False")
     # constructor
     init = _method(matcher, "__init__")
     t = norm(init)
